@@ -234,6 +234,12 @@ def build_harness():
         extra = open(ep).read()
     with open(os.path.join(h, "go.sum"), "w") as f:
         f.write(rsum + extra)
+    # the module under test is whatever VERIF_REPO points at (default /repo)
+    gm = open(os.path.join(h, "go.mod")).read()
+    gm2 = re.sub(r'replace github.com/charmbracelet/bubbletea => \S+', 'replace github.com/charmbracelet/bubbletea => ' + REPO, gm)
+    if gm2 != gm:
+        with open(os.path.join(h, "go.mod"), "w") as f:
+            f.write(gm2)
     rc, out, dt = run(["go", "build", "-tags", "verif", "-o", os.path.join(BIN, "harness"), "."],
                       cwd=h, timeout=600)
     return rc == 0, out
